@@ -67,6 +67,35 @@ PROPS = {
         "optionally with an escape operation; must terminate (20 s bound) and equal the model; plus Parse(batch=false) over every pairing "
         "of revealed key and next commitments x both hash algorithms for update, recover and create",
         "Theorems: intake acceptance implies next commitment is not that of the revealed key and create/recover commitments differ (and the rule rejects nothing else); an applied operation never commits to the commitment it consumes nor to one consumed earlier in the chain; consumed commitments are pairwise distinct; resolution terminates. Cyclic histories and all key pairings through the real parser."),
+    "C08": {
+        "cmd": "c08", "seed": 108, "gentie": 0, "corr": ["Hash"], "coq_dirs": ["Hash", "Parser", "Json", "Corr/Hash", "Props/C08"],
+        "rule": "hash layer: JWKs of five key types, suffix data and deltas of generated DIDs and random JSON values (nested, "
+                "non-ASCII, astral, control characters, extreme numbers) through CalculateModelMultihash (6 codes incl. unsupported), "
+                "IsValidModelMultihash / GetMultihashCode / IsComputedUsingMultihashAlgorithms / GetCommitmentFromRevealValue on 26 "
+                "mutations of each genuine multihash (character, truncation, padding, alphabet, trailing bits, code, non-minimal "
+                "varints, length field, digest length, overflow), GetCommitment / GetRevealValue / GetUniqueSuffix, base64url on "
+                "random texts; 15 re-serialisation styles per value (whitespace x escapes x member order x number spelling); long "
+                "form: genuine DIDs and ~60 alterations each (segment characters, truncation, padding, trailing bits, every "
+                "re-serialisation, reordered / duplicate / extra members, other delta / commitment / patch / suffix data / delta "
+                "hash, nulls, re-derived suffix, suffix edits, extra segments, repeated namespace) under 8 configurations through "
+                "the real DocumentHandler.ResolveDocument over an empty store; distinct by full input",
+        "trusted_base": ["modelled, not verified (facts of lower layers): canonical bytes of decoded structs (JCS, C07), "
+                         "encoding/json decoding into CreateRequest, create applies + document validator + transformer verdict "
+                         "(one boolean fact, C17-C19)", "SHA-256/512, base64url, varint, multihash are computed in Coq, not facts"],
+        "assumptions": [],
+        "level_text": "Theorems: a model validates against a multihash iff the multihash is the hash of its canonical form under the "
+                      "algorithm it names; equal multihash implies equal canonical form or a SHA-2 collision; commitment = hash of the "
+                      "decoded reveal value; base64url and multihash framing are injective (round trips); a long-form DID resolves "
+                      "only if its segment is the canonical encoding of its initial state, its suffix is the multihash of the embedded "
+                      "suffix data and the embedded delta hashes to the delta hash; every non-canonical encoding is rejected. The "
+                      "dependence on the JSON value only is the canonicalizer's value-only theorem (C07) composed with the hash "
+                      "model. Tied to the code by concrete differential runs (the model recomputes every hash inside Coq) and by "
+                      "independent standard-library oracles on the implementation.",
+        "level_note": "Trusted: Coq kernel + vm_compute; harness view builder. Collision resistance of SHA-2 is stated as the conclusion "
+                      "(a collision is exhibited), never assumed.",
+        "technique": "Coq proof (hash / multihash / long-form model with concrete SHA-2 in Coq) + vm_compute correspondence on mutated "
+                     "multihashes and altered long-form DIDs + re-serialisation and self-certification oracles on the implementation",
+    },
     "C09": {
         "cmd": "c09", "seed": 109, "gentie": 0, "corr": ["Jws"], "coq_dirs": ["Jws", "Hash", "Corr/Jws", "Props/C09"],
         "rule": "real keys of the five types; JWS built independently of the library (own base64url/compact code, raw r||s) and by the "
